@@ -1529,7 +1529,7 @@ Qed.
 Theorem capstone c : valid c = true -> known_region c = false -> spec_ok c (run c) = true.
 Proof.
   unfold valid, known_region, spec_ok, run. destruct (resolve c) as [q|e]; [|discriminate].
-  intros Hv Hr. apply orb_false_iff in Hr as [Hr Hz]. apply orb_false_iff in Hr as [Hc Hp].
+  intros Hv Hr. unfold region_req in Hr. apply orb_false_iff in Hr as [Hr Hz]. apply orb_false_iff in Hr as [Hc Hp].
   destruct (q_kind q) as [|[|n]] eqn:Ek.
   - now apply capstone_req.
   - now apply capstone_req1.
